@@ -23,3 +23,23 @@ func (app *BaseApp) VerifBlockGas() (consumed, limit int64, ok bool) {
 	m := app.deliverState.ctx.BlockGasMeter()
 	return m.GasConsumed(), m.Limit(), true
 }
+
+// (moved here from hooks/c03 so that every chainx harness builds)
+
+
+// VerifPushDeliver stacks a fresh cache-wrapped multistore on top of the state of the block being delivered
+// and returns a function that discards everything written since (restoring the previous deliver state).
+// Used by the realm explorers (C03/C06/C07) as an O(1) snapshot/rollback of the chain state between
+// transactions: the txs themselves run through the unmodified DeliverTx path.
+func (app *BaseApp) VerifPushDeliver() (pop func()) {
+	old := app.deliverState
+	if old == nil {
+		panic("VerifPushDeliver outside a block")
+	}
+	ms := old.ms.MultiCacheWrap()
+	app.deliverState = &state{
+		ms:  ms,
+		ctx: old.ctx.WithMultiStore(ms).WithBlockGasMeter(store.NewInfiniteGasMeter()),
+	}
+	return func() { app.deliverState = old }
+}
